@@ -493,11 +493,20 @@ type queryDef struct {
 	interval int64    // 0 = storage interval
 	start    int64
 	end      int64
+	fn       string // "", or a function on the sum field: sum, min, max (down-sampling and merge of series by that function)
+}
+
+// column is the name of the selected column in the statement and in the result.
+func (q queryDef) column() string {
+	if q.fn != "" {
+		return q.fn + "(" + fieldSpecs[q.field].name + ")"
+	}
+	return fieldSpecs[q.field].name
 }
 
 func (q queryDef) sql() string {
 	var sb strings.Builder
-	fmt.Fprintf(&sb, "select %s from m where ", fieldSpecs[q.field].name)
+	fmt.Fprintf(&sb, "select %s from m where ", q.column())
 	if q.cond != nil {
 		sb.WriteString(q.cond.sql() + " and ")
 	}
@@ -536,6 +545,9 @@ func genQuery(rng *rand.Rand, prop string, fams int) queryDef {
 	q.end = q.start + int64(1+rng.Intn(50))*10000 + 9000
 	if rng.Intn(3) == 0 {
 		q.start, q.end = Jan1, Jan1+3599000
+	}
+	if q.field == 0 && rng.Intn(3) == 0 {
+		q.fn = []string{"sum", "min", "max"}[rng.Intn(3)]
 	}
 	if fams > 1 {
 		switch rng.Intn(3) {
@@ -695,17 +707,37 @@ func (r *run) query(op core.Op, duringFlush bool) {
 		}
 		for _, s := range rs.Series {
 			var ts []int64
-			for t := range s.Fields[fieldSpecs[q.field].name] {
+			for t := range s.Fields[q.column()] {
 				ts = append(ts, t)
 			}
 			sort.Slice(ts, func(i, j int) bool { return ts[i] < ts[j] })
 			line := ""
 			for _, t := range ts {
-				line += fmt.Sprintf("+%ds:%v ", (t-Jan1)/1000, s.Fields[fieldSpecs[q.field].name][t])
+				line += fmt.Sprintf("+%ds:%v ", (t-Jan1)/1000, s.Fields[q.column()][t])
 			}
 			c.Sim.Event("  result %v: %s", s.Tags, line)
 		}
 		r.dumpIndex()
+		for _, variant := range []string{
+			"select fsum from m where time>='2000-01-01 00:01:10' and time<='2000-01-01 01:08:09' group by id,time(60s)",
+			"select fsum from m where app not like 'n*' and time>='2000-01-01 00:01:10' and time<='2000-01-01 01:08:09' group by id,time(60s)",
+			"select fsum from m where zone not like 'e*' and time>='2000-01-01 00:01:10' and time<='2000-01-01 01:08:09' group by id,time(60s)",
+			"select fsum from m where (app not like 'n*' or zone not like 'e*') and time>='2000-01-01 00:01:10' and time<='2000-01-01 00:58:09' group by id,time(60s)",
+		} {
+			if os.Getenv("VERIF_VARIANTS") == "" {
+				break
+			}
+			rs2, err2 := r.n.Query(r.db, variant, lay)
+			if err2 != nil {
+				c.Sim.Event("  variant %s: %v", variant, err2)
+				continue
+			}
+			for _, s2 := range rs2.Series {
+				if s2.Tags["id"] == "s01" {
+					c.Sim.Event("  variant %s: %v", variant[17:60], s2.Fields["fsum"])
+				}
+			}
+		}
 		for _, fs := range fieldSpecs {
 			rs2, err2 := r.n.Query(r.db, "select "+fs.name+" from m where time>='2000-01-01 00:00:00' and time<='2000-01-01 00:59:59' group by id,time(10s)", lay)
 			if err2 != nil {
@@ -732,7 +764,7 @@ func (r *run) query(op core.Op, duringFlush bool) {
 func (r *run) compare(sqlText string, q queryDef, exp map[string]*expGroup, rs *commonmodels.ResultSet) {
 	c := r.c
 	prop := c.Plan.Prop
-	fname := fieldSpecs[q.field].name
+	fname := q.column()
 	var firstLastFlag func() // reported at the end of the run: it must never hide another violation
 	defer func() {
 		if firstLastFlag != nil && r.pendingFirstLast == nil {
@@ -781,6 +813,12 @@ func (r *run) compare(sqlText string, q queryDef, exp map[string]*expGroup, rs *
 		sort.Slice(slots, func(i, j int) bool { return slots[i] < slots[j] })
 		for _, s := range slots {
 			want, cands := aggregate(fieldSpecs[q.field].agg, e.values[s])
+			splitSlot := false
+			if q.fn == "min" || q.fn == "max" {
+				// min/max of a sum field: the storage slot of a series holds the sum of its points (field type),
+				// the function picks among the slots of the bucket and among the series of the group
+				want, splitSlot = slotFunction(q.fn, e.values[s])
+			}
 			gv, ok := vals[s]
 			if !ok {
 				c.Violate(prop+"/value-missing", "%s: group %v slot %s has no value, expected %v %v", sqlText, e.tags, fmtTime(s), want, cands)
@@ -788,6 +826,16 @@ func (r *run) compare(sqlText string, q queryDef, exp map[string]*expGroup, rs *
 			}
 			if cands == nil {
 				if gv != want {
+					if splitSlot && prop == "C11" {
+						// known finding: the partial sums of one storage slot (points written at different times sit
+						// in different buffers / databases / files) are combined by the query function
+						if r.pendingFirstLast == nil && firstLastFlag == nil {
+							firstLastFlag = func() {
+								c.Violate(prop+"/function-over-partial-sums", "%s: group %v slot %s = %v, %s over the per-slot sums of the written points is %v", sqlText, e.tags, fmtTime(s), gv, q.fn, want)
+							}
+						}
+						continue
+					}
 					c.Violate(prop+"/value-wrong", "%s: group %v slot %s = %v, expected %v", sqlText, e.tags, fmtTime(s), gv, want)
 					return
 				}
@@ -936,4 +984,31 @@ func sameSlotAndEpoch(ps []point) bool {
 		}
 	}
 	return true
+}
+
+// slotFunction: min or max over the per (series, storage slot) sums of the bucket's points; split = some slot of
+// a series received more than one point (its sum may exist as partial sums in several places).
+func slotFunction(fn string, ps []point) (float64, bool) {
+	type key struct {
+		series int
+		slot   int64
+	}
+	sums := map[key]float64{}
+	count := map[key]int{}
+	split := false
+	for _, p := range ps {
+		k := key{p.series, p.ts / 10000}
+		sums[k] += p.value
+		if count[k]++; count[k] > 1 {
+			split = true
+		}
+	}
+	first := true
+	var out float64
+	for _, v := range sums {
+		if first || (fn == "min" && v < out) || (fn == "max" && v > out) {
+			out, first = v, false
+		}
+	}
+	return out, split
 }
